@@ -299,6 +299,44 @@ proof fn lemma_cnt_not_nan(n: nat)
     }
 }
 
+// ---- the closing pass `for val in v.iter_mut() { *val = if val.is_nan() { missing } else { *val }; }` ----
+// The loop becomes an index loop by //@sub; its invariant is ONE predicate named in the substitution text
+// (no `//@loop 3` splice: a mutant that deletes the whole pass must reach Verus and fail the postcondition,
+// not die as "anchor lost").  A violated invariant is reported as `<fn>/implicit:invariant not satisfied ..`.
+/// bigWig: covered cells hold their value; uncovered cells before i hold `missing`, from i on the NaN marker
+pub open spec fn bw_final_inv(v: Seq<f64>, n: int, i: int, vals: Seq<Value>, nk: int, start: int, end: int, missing: f64) -> bool {
+    &&& v.len() == end - start && n == v.len() && nk == vals.len()
+    &&& forall|q: int, k: int| 0 <= q < v.len() && 0 <= k < nk && inside((#[trigger] vals[k]).start, vals[k].end, start + q)
+            ==> #[trigger] v[q] == f64_of(vals[k].value)
+    &&& forall|q: int| 0 <= q < i && q < v.len() && bw_uncovered(vals, nk, start + q) ==> #[trigger] v[q] == missing
+    &&& forall|q: int| i <= q < v.len() && bw_uncovered(vals, nk, start + q) ==> is_nan_spec(#[trigger] v[q])
+}
+/// a covered cell holds a stored value, which is not NaN (finite data): the pass keeps it
+proof fn lemma_bw_final_step(v: Seq<f64>, n: int, i: int, vals: Seq<Value>, nk: int, start: int, end: int, missing: f64)
+    requires bw_final_inv(v, n, i, vals, nk, start, end, missing), 0 <= i < v.len(), bw_no_nan(vals),
+    ensures is_nan_spec(v[i]) <==> bw_uncovered(vals, nk, start + i),
+{
+    if !bw_uncovered(vals, nk, start + i) {
+        let k = choose|k: int| 0 <= k < nk && inside((#[trigger] vals[k]).start, vals[k].end, start + i);
+        assert(v[i] == f64_of(vals[k].value));
+    }
+}
+/// bigBed: cells before i hold `missing` / the count, from i on the counting state (NaN marker for 0)
+pub open spec fn be_final_inv(v: Seq<f64>, n: int, i: int, ents: Seq<BedEntry>, nk: int, start: int, end: int, missing: f64) -> bool {
+    &&& v.len() == end - start && n == v.len() && nk == ents.len()
+    &&& forall|q: int| 0 <= q < i && q < v.len() && count_at(ents, nk, start + q) == 0 ==> #[trigger] v[q] == missing
+    &&& forall|q: int| 0 <= q < i && q < v.len() && count_at(ents, nk, start + q) > 0 ==> #[trigger] v[q] == cnt_f(count_at(ents, nk, start + q))
+    &&& forall|q: int| i <= q < v.len() ==> #[trigger] v[q] == cell_of(count_at(ents, nk, start + q))
+}
+proof fn lemma_be_final_step(v: Seq<f64>, n: int, i: int, ents: Seq<BedEntry>, nk: int, start: int, end: int, missing: f64)
+    requires be_final_inv(v, n, i, ents, nk, start, end, missing), 0 <= i < v.len(),
+    ensures is_nan_spec(v[i]) <==> count_at(ents, nk, start + i) == 0,
+{
+    ax_nan_const_is_nan();
+    let c = count_at(ents, nk, start + i);
+    if c >= 1 { lemma_cnt_not_nan(c); }
+}
+
 // =====================================================================================
 // to_array (bigWig, per base)
 // =====================================================================================
@@ -385,15 +423,13 @@ fn to_array(
         proof {
             assert(iter.rest() =~= items.subrange(j + 1, items.len() as int));
             assert(interval == items[j]);
-            if interval is Err { assert(j == nk); }
+            if interval is Err { assert(j == nk); } else {
+                assert(j < nk);
+                assert(interval->Ok_0 == vals[j]);
+                assert(start <= vals[j].start && vals[j].start <= vals[j].end && vals[j].end <= end);
+            }
         }
         let interval = interval?;
-
-        proof {
-            assert(j < nk);
-            assert(interval == vals[j]);
-            assert(start <= vals[j].start && vals[j].start <= vals[j].end && vals[j].end <= end);
-        }
         let interval_start = ((interval.start as i32) - start) as usize;
         let interval_end = ((interval.end as i32) - start) as usize;
 
@@ -438,36 +474,17 @@ fn to_array(
     
         proof { j = j + 1; }
 }
-
-    proof {
-        assert(vals =~= oks(items, items.len() as int));
-    }
     let n__ = v.len();
-    for i__2 in 0..n__ 
-        invariant
-            
-            v@.len() == end - start, n__ == v@.len(), j == nk, nk == items.len(), vals == oks(items, nk), bw_no_nan(vals),
-            
-            forall|q: int, k: int| 0 <= q < v@.len() && 0 <= k < nk && inside((#[trigger] vals[k]).start, vals[k].end, start + q)
-                ==> #[trigger] v@[q] == f64_of(vals[k].value),
-            
-            forall|q: int| 0 <= q < i__2 && bw_uncovered(vals, nk, start + q) ==> #[trigger] v@[q] == missing,
-            forall|q: int| i__2 <= q < v@.len() && bw_uncovered(vals, nk, start + q) ==> is_nan_spec(#[trigger] v@[q]),
-{
-
-        proof {
-            // a covered cell holds a stored value, which is not NaN (finite data): it is kept
-            if !bw_uncovered(vals, nk, start + i__2) {
-                let k = choose|k: int| 0 <= k < nk && inside((#[trigger] vals[k]).start, vals[k].end, start + i__2);
-                assert(v@[i__2 as int] == f64_of(vals[k].value));
-                assert(!is_nan_spec(v@[i__2 as int]));
-            }
-        }
+    for i__2 in 0..n__
+        invariant bw_final_inv(v@, n__ as int, i__2 as int, vals, nk, start as int, end as int, missing), nk == items.len(), vals == oks(items, nk), bw_no_nan(vals),
+    {
+        proof { lemma_bw_final_step(v@, n__ as int, i__2 as int, vals, nk, start as int, end as int, missing); }
         let val = v.index_mut(i__2);
         *val = if val.is_nan() { missing } else { *val };
     }
 
     proof {
+        assert(vals =~= oks(items, items.len() as int));
         assert forall|q: int, jj: int| 0 <= q < end - start && 0 <= jj < items.len()
             && inside((#[trigger] items[jj])->Ok_0.start, items[jj]->Ok_0.end, start + q)
             implies #[trigger] v@[q] == f64_of(items[jj]->Ok_0.value) by {
@@ -552,17 +569,16 @@ fn to_entry_array(
         proof {
             assert(iter.rest() =~= items.subrange(j + 1, items.len() as int));
             assert(interval == items[j]);
-            if interval is Err { assert(j == nk); }
+            if interval is Err { assert(j == nk); } else {
+                assert(j < nk);
+                assert(interval->Ok_0 == ents[j]);
+                assert(ents[j].start <= ents[j].end && ents[j].end <= i32::MAX && start <= ents[j].end && ents[j].start <= end);
+            }
         }
         let interval = interval?;
-
-        proof {
-            assert(j < nk);
-            assert(interval == ents[j]);
-            assert(ents[j].start <= ents[j].end && ents[j].end <= i32::MAX && start <= ents[j].end && ents[j].start <= end);
-        }
-        let interval_start = ((interval.start as i32) - start) as usize;
-        let interval_end = ((interval.end as i32) - start) as usize;
+        // Entries are returned whole: count only the part inside the requested range
+        let interval_start = ((interval.start as i32).max(start) - start) as usize;
+        let interval_end = ((interval.end as i32).min(end) - start) as usize;
 
         proof {
             assert(interval_start == clamp_lo(interval.start, start, end) - start
@@ -609,29 +625,17 @@ fn to_entry_array(
             j = j + 1;
         }
 }
+    let n__ = v.len();
+    for i__2 in 0..n__
+        invariant be_final_inv(v@, n__ as int, i__2 as int, ents, nk, start as int, end as int, missing), nk == items.len(), ents == oks(items, nk),
+    {
+        proof { lemma_be_final_step(v@, n__ as int, i__2 as int, ents, nk, start as int, end as int, missing); }
+        let val = v.index_mut(i__2);
+        *val = if val.is_nan() { missing } else { *val };
+    }
 
     proof {
         assert(ents =~= oks(items, items.len() as int));
-    }
-    let n__ = v.len();
-    for i__2 in 0..n__ 
-        invariant
-            
-            v@.len() == end - start, n__ == v@.len(), j == nk, nk == items.len(), ents == oks(items, nk),
-            
-            forall|q: int| 0 <= q < i__2 && count_at(ents, nk, start + q) == 0 ==> #[trigger] v@[q] == missing,
-            forall|q: int| 0 <= q < i__2 && count_at(ents, nk, start + q) > 0 ==> #[trigger] v@[q] == cnt_f(count_at(ents, nk, start + q)),
-            forall|q: int| i__2 <= q < v@.len() ==> #[trigger] v@[q] == cell_of(count_at(ents, nk, start + q)),
-{
-
-        proof {
-            ax_nan_const_is_nan();
-            let n = count_at(ents, nk, start + i__2);
-            if n >= 1 { lemma_cnt_not_nan(n); }
-            assert(is_nan_spec(v@[i__2 as int]) <==> n == 0);
-        }
-        let val = v.index_mut(i__2);
-        *val = if val.is_nan() { missing } else { *val };
     }
     Ok(())
 }
